@@ -1,17 +1,142 @@
 package main
 
 import (
+	"encoding/json"
+	"flag"
 	"fmt"
-	"golang.org/x/tools/go/packages"
-	"golang.org/x/tools/go/ssa"
-	"golang.org/x/tools/go/ssa/ssautil"
+	"os"
+	"sort"
+	"strings"
 )
 
 func main() {
-	cfg := &packages.Config{Mode: packages.LoadSyntax, Dir: "/repo/rolling-shutter", BuildFlags: []string{"-tags=verif"}}
-	pkgs, err := packages.Load(cfg, "./medley")
-	if err != nil { panic(err) }
-	prog, spkgs := ssautil.Packages(pkgs, ssa.InstantiateGenerics|ssa.GlobalDebug)
-	prog.Build()
-	fmt.Println(len(spkgs))
+	if len(os.Args) < 2 {
+		fmt.Fprintln(os.Stderr, "usage: govc unit|check ...")
+		os.Exit(2)
+	}
+	initWorkDir()
+	code := 2
+	func() {
+		defer cleanupWorkDir()
+		switch os.Args[1] {
+		case "unit":
+			code = cmdUnit(os.Args[2:])
+		case "check":
+			code = cmdCheck(os.Args[2:])
+		case "list":
+			code = cmdList(os.Args[2:])
+		default:
+			fmt.Fprintln(os.Stderr, "unknown command", os.Args[1])
+		}
+	}()
+	os.Exit(code)
+}
+
+// govc unit -pkgs ./a,./b -fn 'pkgpath-suffix::Key' [-dump file] [-v]
+func cmdUnit(args []string) int {
+	fs := flag.NewFlagSet("unit", flag.ExitOnError)
+	pkgs := fs.String("pkgs", "", "comma separated package patterns (relative to the module)")
+	fnName := fs.String("fn", "", "function key: <pkg path suffix>::<Key>")
+	dump := fs.String("dump", "", "write the full SMT script of obligations matching -match to this dir")
+	match := fs.String("match", "", "substring of obligation names to dump")
+	timeout := fs.Int("t", 10, "solver timeout (s)")
+	verbose := fs.Bool("v", false, "verbose")
+	nospec := fs.Bool("nospec", false, "ignore the function's own contract (safety sweep)")
+	fs.BoolVar(&debugPanics, "panic", false, "let engine panics through")
+	fs.Parse(args)
+	eng, err := LoadEngine(strings.Split(*pkgs, ","))
+	if err != nil {
+		fmt.Fprintln(os.Stderr, "load:", err)
+		return 2
+	}
+	eng.timeoutS = *timeout
+	var keys []string
+	for k := range eng.funcs {
+		if strings.HasSuffix(k, *fnName) {
+			keys = append(keys, k)
+		}
+	}
+	sort.Strings(keys)
+	if len(keys) == 0 {
+		fmt.Fprintln(os.Stderr, "no function matches", *fnName)
+		return 2
+	}
+	rc := 0
+	for _, k := range keys {
+		for _, fn := range eng.funcs[k] {
+			sp := eng.specs.Funcs[k]
+			if *nospec {
+				sp = nil
+			}
+			res := eng.VerifyFunction(fn, k, sp)
+			fmt.Printf("== %s  (contract: %v, %d script lines, %d ms, vacuity: %s)\n", res.Func, sp != nil, res.ScriptLines, res.WallMs, res.Vacuity)
+			for _, o := range res.Obligations {
+				fmt.Printf("  %-10s %-9s %5dms %s  @%s\n", o.Status, o.Solver, o.Ms, o.Name, o.Pos)
+				if o.Status != "discharged" {
+					rc = 1
+					if *verbose {
+						fmt.Printf("      %s\n", o.Detail)
+					}
+				}
+				if *dump != "" && (*match == "" || strings.Contains(o.Name, *match)) {
+					os.MkdirAll(*dump, 0o755)
+					f := fmt.Sprintf("%s/%s.smt2", *dump, sanitize(o.Name))
+					if len(f) > 200 {
+						f = f[:200] + ".smt2"
+					}
+					os.WriteFile(f, []byte(res.unit.script(o.obl, res.unit.finalActive)+"(check-sat)\n(get-model)\n"), 0o644)
+				}
+			}
+			if *verbose {
+				for _, n := range res.Notes {
+					fmt.Println("  note:", n)
+				}
+				fmt.Println("  inlined:", res.Inlined)
+				fmt.Println("  specs used:", res.SpecsUsed)
+				fmt.Println("  kept auto invariants:", res.KeptAuto)
+				fmt.Println("  dropped auto invariants:", len(res.DroppedAuto))
+			}
+			for _, n := range res.Unsupported {
+				fmt.Println("  UNSUPPORTED:", n)
+			}
+		}
+	}
+	return rc
+}
+
+func cmdList(args []string) int {
+	fs := flag.NewFlagSet("list", flag.ExitOnError)
+	pkgs := fs.String("pkgs", "", "comma separated package patterns")
+	fs.Parse(args)
+	eng, err := LoadEngine(strings.Split(*pkgs, ","))
+	if err != nil {
+		fmt.Fprintln(os.Stderr, "load:", err)
+		return 2
+	}
+	var keys []string
+	for k := range eng.funcs {
+		keys = append(keys, k)
+	}
+	sort.Strings(keys)
+	for _, k := range keys {
+		fmt.Println(k, len(eng.funcs[k]))
+	}
+	return 0
+}
+
+func writeJSON(path string, v interface{}) error {
+	data, err := json.MarshalIndent(v, "", " ")
+	if err != nil {
+		return err
+	}
+	tmp := path + ".tmp"
+	if err := os.WriteFile(tmp, data, 0o644); err != nil {
+		return err
+	}
+	return os.Rename(tmp, path)
+}
+
+func cmdCheck(args []string) int {
+	fmt.Fprintln(os.Stderr, "not implemented yet")
+	return 2
 }
